@@ -13,7 +13,7 @@ from ..observe import AsyncRecorder, Recorder, run_async, run_sync
 
 ID = "C08"
 LEVEL = "exploration"
-BUDGET = {"quick": 3000, "thorough": 48000}
+BUDGET = {"quick": 5000, "thorough": 48000}
 SHARDS = {"quick": 8, "thorough": 16}
 RULE = (
     "Hypothesis-generated graphs: gate-free DAGs, control-flow programs (gates, data cycles, signals), structured loops (flat and "
